@@ -86,6 +86,8 @@ class Scheduler:
         wall_limit: float = 60.0,
         start_time: float = 1_000_000.0,
         start_delays: tuple[float, ...] = (),
+        sync_preempts: int = 0,
+        sync_odds: int = 8,
     ) -> None:
         self.ch = ch
         self.log = log if log is not None else EventLog()
@@ -104,6 +106,12 @@ class Scheduler:
         # fault "slow thread start": a thread started BY THE CODE UNDER TEST (SimThreading.Thread.start) may stay
         # un-scheduled for one of these virtual delays, as on a loaded machine (choice 0 = starts at once)
         self.start_delays = tuple(start_delays)
+        # sync-point-biased pre-emption: up to ``sync_preempts`` extra pre-emptions per run placed right BEFORE a lock /
+        # condition acquire or right AFTER a release (1 in ``sync_odds`` at each such point while another thread could
+        # run).  Reads made just outside a critical section - the classic check-then-act window - sit exactly there, and
+        # uniformly placed line pre-emptions find a two-line window only once in hundreds of runs.
+        self.sync_left = sync_preempts
+        self.sync_odds = max(2, sync_odds)
         self.wall_limit = wall_limit
         self.abort = False
         self.over = False
@@ -228,6 +236,11 @@ class Scheduler:
             self._preempt(site or "op")
         elif self.steps > self.max_steps:
             self._cap()
+        elif self.sync_left > 0 and not self.over and (site.endswith(".acquire") or site.endswith(".release")):
+            if any(t is not cur for t in self._runnable()) and self.ch.choose(self.sync_odds, "sync.preempt") == 1:
+                self.sync_left -= 1
+                self.ch.fault("sched.sync-preempt")
+                self._preempt(site)
 
     def _cap(self) -> None:
         if not self.over:
